@@ -16,7 +16,7 @@ import (
 // C01 — admission is an atomic gate (linearizable against a counting gate).
 func init() {
 	Register(&Prop{
-		ID: "C01", Bubble: true, Run: runC01, QuickRuns: 1500,
+		ID: "C01", Bubble: true, Run: runC01, QuickRuns: 2500,
 		ExpectedProbes: []string{"acquire_refused", "limit_changed_while_running"},
 		Rule: "one run = one seeded scenario (DefaultLimiter over simple/precise strategy with a scripted limit trajectory or AIMD/Vegas, or the precise strategy alone with direct SetLimit calls; 2..6 caller tasks, 1..4 acquire/hold/complete rounds each, sample windows closing concurrently) under one seeded schedule; " +
 			"the recorded history (Acquire results, completions, SetLimit calls captured by a recording strategy proxy, stamped with scheduler step numbers) is checked with porcupine against the sequential counting gate {count, limit}; " +
